@@ -110,7 +110,7 @@ def run_case(case):
 def all_cases(ctx):
     q = ctx.quick
     cases = []
-    alphas = [1e-4, 0.1, 0.3] if q else [1e-6, 1e-4, 1e-2, 0.1, 0.3]
+    alphas = [1e-6, 1e-4, 0.1, 0.3] if q else [1e-6, 1e-5, 1e-4, 1e-2, 0.1, 0.3]
     for mname, spec in refhdr.MODELS.items():
         n_dim = 2 if spec == "custom" else len(spec[0])
         for alpha in alphas:
@@ -119,6 +119,10 @@ def all_cases(ctx):
                     if lk == "reversed" and ds[0] != "scalar" and ds[1] != grid_specs(n_dim, q)[0][1]:
                         continue
                     cases.append({"model": mname, "alpha": alpha, "limits": lk, "deltas": list(ds)})
+            # grids whose total probability is within a few alpha of 1-alpha, on both sides
+            if mname in ("w_ln", "ew_ew", "ln_normal", "w_ln_indep") and alpha <= 1e-2:
+                for k in (0.5, 0.9, 1.1, 1.5, 3.0):
+                    cases.append({"model": mname, "alpha": alpha, "limits": f"cut{k}", "deltas": ["cells", [150, 500]]})
             # default limits (Monte-Carlo quantile for conditional dims) with default and scalar deltas
             # (the default limits draw 5/(0.2^n alpha) samples: alpha is kept >= 1e-4 (2-D) / 1e-2 (3-D) for them)
             if n_dim == 2 and alpha >= 1e-4:
@@ -132,7 +136,7 @@ def all_cases(ctx):
 def main(ctx):
     ctx.rule = ("complete product: model {5 two-dimensional incl. multi-modal von Mises over three periods, 3 "
                 "three-dimensional structures} x alpha x limits {default (Monte-Carlo, global RNG seeded), generous, tight "
-                "(cannot hold 1-alpha), reversed tuples} x deltas {None, scalar, per-dimension lists isotropic and "
+                "(cannot hold 1-alpha), reversed tuples, first-variable tail cut of k*alpha for k in .5,.9,1.1,1.5,3} x deltas {None, scalar, per-dimension lists isotropic and "
                 "anisotropic up to ratio 10}. evaluations = contours; non-trivial = the region is a proper non-empty "
                 "subset of the grid, or the RuntimeWarning case.")
     ctx.assumptions = ["grid read back from the object (cell_center_coordinates, deltas); probabilities recomputed with the "
